@@ -13,7 +13,7 @@ class Gen5(M.Gen):
 
     def inner(self, depth):
         r = self.rng
-        k = r.randint(0, 14)
+        k = r.randint(0, 16)
         blk = lambda *ss: Code(*ss)
         # an operand expression that yields NO value: a unary operator on nil only warns and pushes nothing
         void = lambda: Un(r.choice(["str", "count"]), Var("_undef%d" % r.randint(1, 3)))
@@ -28,6 +28,14 @@ class Gen5(M.Gen):
                              Bin("call", N(1), short), Bin("catch", Un("try", short), blk(E(N(0))))])
         if k == 14:  # a binary / unary operator inside a called block that finds no operand in its own scope
             return Un("call", blk(E(r.choice([Bin("+", void(), void()), Bin("+", N(1), void()), Un("count", void())]))))
+        if k in (15, 16):   # a while loop whose body ends in a value (the loop itself yields nil); k == 16: a statement of the condition is short
+            # of an operand, so that a value left over from the body's last round would be taken for it
+            lim = r.randint(1, 3)
+            cond = [E(Bin("<", Var("_w"), N(lim)))]
+            if k == 16:
+                cond = [Loc("_p", void()), E(Un("diag_log", Arr(S("p"), Var("_p"))))] + cond
+            loop = Bin("do", Un("while", blk(*cond)), blk(Asg("_w", Bin("+", Var("_w"), N(1))), E(Arr(Var("_w"), N(9)))))
+            return Un("call", blk(Loc("_w", N(0)), E(loop)))
         if k == 0:   # block leaving extra values, last statement an expression
             return Un("call", blk(E(Arr(N(8), N(9))), E(N(r.randint(0, 9)))))
         if k == 1:   # block ending in an assignment: yields nil
@@ -61,7 +69,10 @@ class Gen5(M.Gen):
         k = r.random()
         inner = self.inner(depth)
         if k < 0.6:
-            return ("array3", (a, b), Prog(E(Un("diag_log", Arr(N(a), inner, N(b))))))
+            st = E(Un("diag_log", Arr(N(a), inner, N(b))))
+            if r.random() < 0.25:   # the same in a scheduled script (some behaviours take another path when the script can suspend)
+                return ("array3", (a, b), Prog(E(Bin("spawn", N(0), Code(st))), E(N(0))))
+            return ("array3", (a, b), Prog(st))
         if k < 0.8:   # nested: the construct sits in an inner array inside an outer one
             return ("array3n", (a, b), Prog(E(Un("diag_log", Arr(N(a), Arr(N(1), inner), N(b))))))
         # pending left operand of a binary operator
